@@ -25,7 +25,7 @@ CHECKS['C06'] = tvl('include-except and suffix-pair programs are compiled (12 fr
 CHECKS['C07'] = mc('expandDefinitions is executed under ALL iteration orders of its three map loops (symbolic permutations) on enumerated definition shapes (depth-3 chains under several namings, diamond, undefined reference, braces) and must yield the hand-expanded text; in addition the VALUE of a definition is symbolic text (every printable byte, e.g. `$`, backslashes, single braces) pasted directly, through a second definition and next to quantifier braces.', 'DESIGN.md 4/C07')
 CHECKS['C08'] = mc('Havoc harness on the package-level assembler state (arbitrary leftover processor, every sequence of up to 3 line kinds) with an inductive stack invariant; --all isolation and completeness on modelled trees through the real performUpdate/performCompare walk callbacks.', 'DESIGN.md 4/C08')
 CHECKS['C09'] = mc('Per-line format step is a fixed point and has the canonical indentation for every line up to the stated length and depth 0..2; whole-file application (header, end of file, --check agreement, --check never writes) on enumerated file structures - without header and with the header already present (with / without its blank line) - with symbolic short lines and final-newline flag.', 'DESIGN.md 4/C09')
-CHECKS['C10'] = mc('For every printable line up to the stated length and depth 0..1 the format step changes white space only; for every ASCII line (control bytes included) up to a smaller length the compiler classifies the formatted line as it classified the original and an entry keeps every byte apart from its indentation; a line the step rejects makes format fail without writing. Known pattern defects excluded by signature.', 'DESIGN.md 4/C10')
+CHECKS['C10'] = mc('For every printable line up to the stated length and depth 0..1 the format step changes white space only; for every ASCII line (control bytes included) up to a smaller length the compiler classifies the formatted line as it classified the original and an entry keeps every byte apart from its indentation, and the value the compiler reads from a flags/prefix/suffix line (inner white space included) is unchanged; a line the step rejects makes format fail without writing. Known pattern defects excluded by signature.', 'DESIGN.md 4/C10')
 CHECKS['C11'] = dict(level=MC, technique=BMC,
     text='For every old/new operand (printable ASCII satisfying the C02 invariants) up to the stated lengths, both operator spellings, trailing bytes on the rule line and an arbitrary earlier rule whose SecRule line may be identical, the solver shows that updateRegex changes exactly the operand bytes of the addressed rule; known defect classes are excluded by signature and a witness of each is replayed.',
     ref='DESIGN.md 4/C11')
@@ -36,7 +36,7 @@ CHECKS['C13'] = mc('processYaml on enumerated file structures (id/title/other/em
 CHECKS['C14'] = mc('One-step history lemma: from a marker line showing ANY accepted previous version, one run with any accepted version shows the new version/year (induction over runs gives history independence and idempotence); a line carrying two markers shows the new version in both; non-marker lines are byte-identical.', 'DESIGN.md 4/C14')
 CHECKS['C15'] = mc('Every os.WriteFile reached is logged with guard and path: walks over a modelled tree plus one arbitrary directory entry (symbolic name and IsDir); --check variants never write, rewriting commands write only their targets.', 'DESIGN.md 4/C15')
 CHECKS['C16'] = mc('Per fault class (19) and position the command body must not end with exit status 0 (normal return / nil error); exit status derived from how the body ends (Fatal, Panic, returned error); format on a file it cannot format fails and leaves the file byte-identical.', 'DESIGN.md 4/C16')
-CHECKS['C17'] = mc('bufio.Scanner and bufio.Reader.ReadLine modelled by their contracts (token limit / pieces with isPrefix); a line longer than 64 KiB at a symbolic (or enumerated) position must be carried through completely or make the reader fail loudly - never silently drop, split or truncate lines - in each of five reader loops.', 'DESIGN.md 4/C17')
+CHECKS['C17'] = mc('bufio.Scanner and bufio.Reader.ReadLine modelled by their contracts (token limit / pieces with isPrefix); a line longer than 64 KiB at a symbolic (or enumerated) position must be carried through completely or make the reader fail loudly - never silently drop, split or truncate lines - in each of five reader loops. A ReadLine result is a view of the reader buffer: extending it by append after a later read on the same reader is an obligation (stale buffer).', 'DESIGN.md 4/C17')
 CHECKS['C19'] = mc('All runtime-fault obligations (index, slice, nil, division) and unwinding assertions generated while executing the clean-up passes on every printer-shaped text up to the stated length (plus skeleton-guided texts with real and look-alike flag groups); termination of definition expansion on cyclic and self-referential definitions (loop bound exceeded = violation candidate, confirmed by a native run that does not return).', 'DESIGN.md 4/C19')
 NA = {
  'C20': 'decided inside go-selfupdate + net/http + SHA-256 over downloaded streams; not encodable by a hand-written SSA->SMT executor (DESIGN.md section 7)',
